@@ -217,7 +217,12 @@ class DiameterAssociation(object):
     def put_message_into_send_queue(self, msg: Type[DiameterMessage]) -> None:
         self.lock.acquire()
 
-        self.__is_connected()
+        try:
+            self.__is_connected()
+        except DiameterAssociationError:
+            self.lock.release()
+            raise
+
         self._send_messages.put(msg)
 
         hop_by_hop = msg.header.hop_by_hop
@@ -254,7 +259,12 @@ class DiameterAssociation(object):
 
     def send_message_from_queue(self) -> None:
         self.lock.acquire()
-        self.__is_connected()
+
+        try:
+            self.__is_connected()
+        except DiameterAssociationError:
+            self.lock.release()
+            raise
 
         diameter_conn_logger.debug(f"There is/are "\
                                    f"{self._send_messages.qsize()} Diameter "\
